@@ -121,7 +121,10 @@ def correspondence(ctx):
     fails = [{"key": "ctor:" + q, "what": f"constructor request `{q}`: real code `{a}`, model `{b}`", "code": replay(q, b)} for q, a, b in bad[:4]]
     # value kinds: bool / str / None rejected, ints and NumPy scalars accepted, values unchanged
     kinds = 0
-    for good in ({"x": 1, "y": 2}, {"x": numpy.float64(1.5), "y": numpy.int64(2)}, {"rho": 1.5, "phi": 2, "eta": 3.0, "mass": 4}):
+    import decimal
+    import fractions
+    for good in ({"x": 1, "y": 2}, {"x": numpy.float64(1.5), "y": numpy.int64(2)}, {"rho": 1.5, "phi": 2, "eta": 3.0, "mass": 4},
+                 {"x": numpy.float32(0.5), "y": numpy.uint8(3), "z": numpy.int16(-2)}, {"px": fractions.Fraction(1, 4), "py": 2, "pz": numpy.float16(1.5), "E": 7}):
         kinds += 1
         try:
             v = vector.obj(**good)
@@ -129,14 +132,21 @@ def correspondence(ctx):
                 dis.append(f"vector.obj({good}) stores {C.stored(v)}")
         except Exception as e:  # noqa: BLE001
             dis.append(f"vector.obj({good}) raises {type(e).__name__}")
-    for badv in (True, "1", None, [1.0]):
+    # rejected kinds: everything that is not a real number, and booleans of either library (the guard is `numbers.Real and not bool`)
+    for badv in (True, "1", None, [1.0], numpy.bool_(True), 1 + 2j, numpy.complex128(1 + 2j), numpy.complex64(2j), numpy.str_("1"), decimal.Decimal("1.5"),
+                 numpy.array([1.0]), (1.0,), b"1", numpy.datetime64("2020-01-01")):
         for ctor in (lambda b: vector.obj(x=b, y=1.0), lambda b: vector.VectorObject2D(x=1.0, y=b),
                      lambda b: vector.VectorObject3D(x=1.0, y=2.0, z=b), lambda b: vector.MomentumObject4D(px=1.0, py=2.0, pz=3.0, E=b)):
             kinds += 1
             try:
                 ctor(badv)
                 dis.append(f"constructor accepts the non-numeric value {badv!r}")
-                fails.append({"key": f"value-kind:{type(badv).__name__}", "what": dis[-1], "code": None})
+                fails.append({"key": f"value-kind:{type(badv).__name__}", "what": dis[-1], "code": (
+                    "import vector, numpy, decimal\nbad = %s\nfor f in (lambda b: vector.obj(x=b, y=1.0), lambda b: vector.VectorObject2D(x=1.0, y=b), "
+                    "lambda b: vector.MomentumObject4D(px=1.0, py=2.0, pz=3.0, E=b)):\n    try:\n        v = f(bad)\n    except TypeError:\n        continue\n"
+                    "    raise AssertionError('constructor accepts the value %%r of type %%s: %%r' %% (bad, type(bad).__name__, v))\n"
+                    % ({"bool_": "numpy.bool_(True)", "complex128": "numpy.complex128(1+2j)", "complex64": "numpy.complex64(2j)", "str_": "numpy.str_('1')",
+                        "Decimal": "decimal.Decimal('1.5')", "ndarray": "numpy.array([1.0])", "datetime64": "numpy.datetime64('2020-01-01')"}.get(type(badv).__name__, repr(badv))))})
             except TypeError:
                 pass
             except Exception as e:  # noqa: BLE001
